@@ -451,7 +451,11 @@ Ltac mm :=
 Ltac unf := unfold cret, cerr, scanned, cexpect_c; cbn [cpost]; cbv beta;
   unfold TOKP, SOMEP, LISTP, OKP, ERP, KGpost, KGerr, SKpost, inside, sc in *;
   cbn [fst snd is_none length tl] in *.
-Ltac pfin := unf; repeat split; intros; try discriminate; try reflexivity; try congruence; try (mm; lia).
+Ltac slim := repeat match goal with
+  | H := _ |- _ => clear H
+  | H : parse_cost _ |- _ => clear H
+  end.
+Ltac pfin := unf; repeat split; intros; try discriminate; try reflexivity; try congruence; try solve [auto]; try (slim; mm; lia).
 
 (* what the parser needs from the lexer, in units of M *)
 Definition LEXP (s : str) (c : nat) (p : str * ast) : Prop :=
@@ -846,4 +850,51 @@ Proof.
 Qed.
 
 End Bodies.
+Lemma parse_cost_all : forall f, parse_cost (cparserec E f).
+Proof.
+  induction f as [|f IH].
+  - unfold parse_cost. repeat split; intros; exact I.
+  - unfold parse_cost, cparserec, cmkrec.
+    repeat split; cbn [cp_prog_loop cp_expr cp_expr_loop cp_fn_lit cp_factor cp_apply_adverbs cp_read_fn_args
+                        cp_fn_args_loop cp_read_cond cp_expr_array_loop]; intros.
+    + rewrite prog_loop_c_S. apply prog_loop_body_cost; assumption.
+    + rewrite expr_c_S. apply expr_body_cost; assumption.
+    + rewrite expr_loop_c_S. apply expr_loop_body_cost; assumption.
+    + rewrite fn_lit_c_S. apply fn_lit_body_cost; assumption.
+    + rewrite factor_c_S. apply factor_body_cost; assumption.
+    + rewrite apply_adverbs_c_S. apply apply_adverbs_body_cost; assumption.
+    + rewrite read_fn_args_c_S. apply read_fn_args_body_cost; assumption.
+    + rewrite fn_args_loop_c_S. apply fn_args_loop_body_cost; assumption.
+    + rewrite read_cond_c_S. apply read_cond_body_cost; assumption.
+    + rewrite expr_array_loop_c_S. apply expr_array_loop_body_cost; assumption.
+Qed.
+
 End ParseCost.
+
+(* ------------------------------------------------------------------ T12.cost *)
+(* every run of the instrumented parser that is not out of fuel costs at most 630 (|t|+1)^2 *)
+Lemma prog_cost_quadratic : forall E, z_in 59 (delims E) = true ->
+  forall fuel t, (cost_of (prog_c E fuel t) <= 630 * ((length t + 1) * (length t + 1)))%nat.
+Proof.
+  intros E Hd fuel t. remember (length t + 1)%nat as M eqn:HM.
+  assert (Hin : inside M t) by (unfold inside; lia).
+  pose proof (proj1 (parse_cost_all E Hd M fuel) false t [] Hin) as H.
+  unfold prog_c. unfold cparserec, cmkrec in H. cbn [cp_prog_loop] in H.
+  assert (G1 : (length t * M <= M * M)%nat) by (apply Nat.mul_le_mono_r; lia).
+  assert (G2 : (M <= M * M)%nat) by (destruct M; [lia|cbn; lia]).
+  destruct (prog_loop_c E fuel false t []) as [c p|c e|]; cbn [cpost cost_of] in *; [| |lia].
+  - destruct H as (H1 & H2 & _). lia.
+  - unfold ERP in H. lia.
+Qed.
+
+(* with the fuel of T12.total the instrumented parser terminates, returns the result of the model, and the cost
+   bound applies to it: parsing t costs at most 630 (|t|+1)^2 calls and character inspections *)
+Lemma prog_cost_total : forall E, z_in 59 (delims E) = true -> comment_guard E = true ->
+  forall t fuel, (fuel >= fuel_for (length t))%nat ->
+  erase (prog_c E fuel t) = prog E fuel t /\ prog_c E fuel t <> COOF /\
+  (cost_of (prog_c E fuel t) <= 630 * ((length t + 1) * (length t + 1)))%nat.
+Proof.
+  intros E Hd Hg t fuel Hf. split; [apply erase_prog|]. split; [|apply prog_cost_quadratic; exact Hd].
+  intros Hc. pose proof (erase_prog E fuel t) as He. rewrite Hc in He. cbn in He.
+  pose proof (prog_total E Hd Hg t fuel Hf) as Ht. rewrite <- He in Ht. exact Ht.
+Qed.
